@@ -62,7 +62,13 @@ def redrive(src):
     yield from events(src, n)
 
 
-MODELS = {"quick": [], "thorough": []}
+MODELS = {"quick": [("PdaNormal", "PdaNormal_q.cfg", "one-accepting / push-pop / empty-stack (with drain) pipeline on all PDAs "
+                     "with <= 2 moves on 2 states: language preserved after every phase", {"allow_untaken": True}),
+                    ("PdaNormal", "PdaNormal_cfg.cfg", "the same followed by the triple construction (<= 1 move)"),
+                    ("PdaNormal", "PdaNormal_names.cfg", "states named like the fresh names (M1)", {"allow_untaken": True})],
+          "thorough": [("PdaNormal", "PdaNormal_t.cfg", "<= 3 moves", {"allow_untaken": True}),
+                       ("PdaNormal", "PdaNormal_cfg2.cfg", "triple construction, <= 2 moves"),
+                       ("PdaNormal", "PdaNormal_names.cfg", "name clashes", {"allow_untaken": True})]}
 RULE = ("PDAs as in C09 (2-state universe sampled, 7 hand-written ones incl. several/no accepting states, acceptance "
         "with non-empty stack, replace and no-op moves, '$'/'@' already stack symbols, random 1-3 state PDAs); the four "
         "public transformations per PDA; languages compared on all words <= 3 with the saturation semantics (PDA side) "
